@@ -6,7 +6,7 @@ use crate::gens::call::{self, CallCase, FnSpec, Pos, Profile};
 use crate::gens::value::TV;
 use crate::props::callsup::{self, Stats};
 
-pub const RULE: &str = "cases = one call `f(args)` / `f!(args)` as the sole expression of a program, for every function of vrl::stdlib::all() except the IO/nondeterministic ones (now, random_bool, random_bytes, random_float, random_int, uuid_v4, uuid_v7, get_hostname, get_env_var, get_timezone_name, http_request, dns_lookup, reverse_dns, log; get_secret/set_secret/remove_secret/set_semantic_meaning/enrichment-table functions are not part of stdlib::all() in this build) and parse_etld's `psl` file parameter. Per parameter (optional ones present with probability 1/2): a value of an admitted kind, a mutated value from the function's own examples() (parsed with vrl::parser::parse, arguments evaluated), an enum variant where Parameter::enum_variants exists, or (15 %) a deliberately wrong kind; scalars are edge-biased (i64::MIN/MAX, +-inf, subnormals, empty/2 KiB strings, invalid UTF-8, extreme timestamps, containers depth<=4). Three positions per argument: literal in source, event field typed with the value's exact kind, event field typed any; parameters that must be literals are discovered from the compiler's diagnostics on the examples and pinned; del/exists/unnest take path queries. Closure-taking functions use a small fixed set of closure bodies. Total argument size <= 4 KiB. Bounded because a large value only means 'allocate that much' (multi-GB memory is out of scope): decode_lz4 buf_size in (2^24, u32::MAX] clamped to 2^24 (negative and larger values take the function's own too-large path and stay in), integer segments of set's path within +-64, encode_zstd compression_level <= 19 after i32 truncation (ultra levels allocate ~730 MB). The call runs in a killable worker process (RLIMIT_AS 8 GiB, 16 MiB stack). Declared type = Program::final_type_info().result of the compiled program. Oracles: Ok(v) must satisfy member(v, declared kind) [out_of_type_<mismatch>, mismatch = class of the first offending location: kind (value of a kind the type does not admit) | shape (required field/index absent, or excluded one present) | never (declared type has no members)] and v's kind bit must be in Function::return_kind() [return_kind]; a call accepted without `!` and typed infallible must not end in an error [infallible_error]; with a wrong-kind value in an any-typed position the outcome must be an error or an in-type value, never a panic/abort while running [wrong_kind_panic, class wrong_kind_in_<keyword>; only when the same call with an admitted kind in that position does not panic at the same place, otherwise the panic is left to C04]. Failures carry the signature C03:<function>:<sub-oracle>:<class of first argument: its kind if literal/exactly typed, `anytyped` if any-typed>_arg. Non-trivial = compiled, returned Ok, and the argument tuple differs from every tuple of the function's own examples. Distinct = distinct serialised cases. Timeouts are inconclusive here (C05 decides them).";
+pub const RULE: &str = "cases = one call `f(args)` / `f!(args)` as the sole expression of a program, for every function of vrl::stdlib::all() except the IO/nondeterministic ones (now, random_bool, random_bytes, random_float, random_int, uuid_v4, uuid_v7, get_hostname, get_env_var, get_timezone_name, http_request, dns_lookup, reverse_dns, log; get_secret/set_secret/remove_secret/set_semantic_meaning/enrichment-table functions are not part of stdlib::all() in this build) and parse_etld's `psl` file parameter. Per parameter (optional ones present with probability 1/2): a value of an admitted kind, a mutated value from the function's own examples() (parsed with vrl::parser::parse, arguments evaluated), an enum variant where Parameter::enum_variants exists, or (15 %) a deliberately wrong kind; scalars are edge-biased (i64::MIN/MAX, +-inf, subnormals, empty/2 KiB strings, invalid UTF-8, extreme timestamps, containers depth<=4). Four positions per argument: literal in source, event field typed with the value's exact kind, event field typed with the union of that kind and one or two (rarely arbitrary many) further kinds (16 % of admitted-kind arguments; the static types `array or object`, `object or string`, .. that branches produce), event field typed any; parameters that must be literals are discovered from the compiler's diagnostics on the examples and pinned; del/exists/unnest take path queries. Closure-taking functions use a small fixed set of closure bodies. Total argument size <= 4 KiB. Bounded because a large value only means 'allocate that much' (multi-GB memory is out of scope): decode_lz4 buf_size in (2^24, u32::MAX] clamped to 2^24 (negative and larger values take the function's own too-large path and stay in), integer segments of set's path within +-64, encode_zstd compression_level <= 19 after i32 truncation (ultra levels allocate ~730 MB). The call runs in a killable worker process (RLIMIT_AS 8 GiB, 16 MiB stack). Declared type = Program::final_type_info().result of the compiled program. Oracles: Ok(v) must satisfy member(v, declared kind) [out_of_type_<mismatch>, mismatch = class of the first offending location: kind (value of a kind the type does not admit) | shape (required field/index absent, or excluded one present) | never (declared type has no members)] and v's kind bit must be in Function::return_kind() [return_kind]; a call accepted without `!` and typed infallible must not end in an error [infallible_error]; with a wrong-kind value in an any-typed position the outcome must be an error or an in-type value, never a panic/abort while running [wrong_kind_panic, class wrong_kind_in_<keyword>; only when the same call with an admitted kind in that position does not panic at the same place, otherwise the panic is left to C04]. Failures carry the signature C03:<function>:<sub-oracle>:<class of first argument: its kind if literal/exactly typed, `anytyped` if any-typed>_arg. Non-trivial = compiled, returned Ok, and the argument tuple differs from every tuple of the function's own examples. Distinct = distinct serialised cases. Timeouts are inconclusive here (C05 decides them).";
 pub const NOTE: &str = "trusts model::member (membership predicate written from Kind's documentation), the TV<->Value mirror and that Function::return_kind()/parameters() are the documented signature; a panic on correct-kind arguments is left to C04 and a hang to C05; functions typed `any` are only weakly constrained by construction";
 
 static STATS: Stats = Stats::new();
